@@ -106,7 +106,8 @@ def source_parity(ctx, rep, clause):
 
 def multiplier_parity(ctx, rep, clause):
     an, program = ctx.analyzer, ctx.program
-    for fq in ('peptacular.mass_calc:mod_mass', 'peptacular.chem.chem_calc:mod_comp'):
+    for fq in ('peptacular.mass_calc:mod_mass', 'peptacular.chem.chem_calc:mod_comp',
+               'peptacular.chem.chem_calc:_parse_mod_delta_mass_only'):
         ok = False
         for node, av, kind in ret_deps_by_node(an, fq):
             if '@mult' in av.deps and '@val' in av.deps:
